@@ -559,6 +559,10 @@ class CallMixin:
         if k == "map[str,ref]":
             if name in ("keys", "values", "items"):
                 return [(st, SymView(loc, name))]
+            if name in ("get", "pop") and not isinstance(args[0], (str, SStr)):
+                if len(args) > 1 or name == "get":
+                    return [(st, args[1] if len(args) > 1 else None)]
+                return [(st, Exc(KeyError))]
             if name == "get":
                 key = args[0]
                 default = args[1] if len(args) > 1 else None
@@ -567,6 +571,10 @@ class CallMixin:
                 for s2, b in self.branch(st, v == NULL, "dict.get miss"):
                     out.append((s2, default if b else SRef(v, elemcls)))
                 return out
+            if name == "pop" and len(args) > 1 and getattr(self, "_discard", None) is node:
+                # `d.pop(k, default)` as a statement: the result is discarded, no need to fork on presence
+                put(z3.Store(c, zstr(args[0]), NULL))
+                return [(st, Opaque("discarded pop result"))]
             if name == "pop":
                 key = args[0]
                 v = z3.Select(c, zstr(key))
